@@ -134,6 +134,9 @@ type C07Case struct {
 	KeepLength bool `json:"keep_length,omitempty"`
 	// Compact: PrettyPrintResponses is off (entities are written by the streaming encoder)
 	Compact bool `json:"compact,omitempty"`
+	// DefaultErr: routing errors are written by the container's own error writer (its text is
+	// the library's; it must arrive labelled and decodable all the same)
+	DefaultErr bool `json:"default_err,omitempty"`
 }
 
 // bareWriter hides every optional interface of the recorder.
@@ -198,6 +201,7 @@ func genC07(t *rapid.T) C07Case {
 	c.ReuseBuilder = rapid.IntRange(0, 3).Draw(t, "reusebuilder") == 0
 	c.KeepLength = rapid.Bool().Draw(t, "keeplength")
 	c.Compact = rapid.IntRange(0, 3).Draw(t, "compact") == 0
+	c.DefaultErr = c.Target == "noroute" && rapid.IntRange(0, 2).Draw(t, "defaulterr") == 0
 	return c
 }
 
@@ -283,10 +287,12 @@ func checkC07(c C07Case) (vs []*Violation) {
 		outer = false
 		ct := restful.NewContainer()
 		ct.EnableContentEncoding(on)
-		ct.ServiceErrorHandler(func(se restful.ServiceError, req *restful.Request, resp *restful.Response) {
-			resp.WriteHeader(se.Code)
-			run.write(resp, c.ErrChunks)
-		})
+		if !c.DefaultErr {
+			ct.ServiceErrorHandler(func(se restful.ServiceError, req *restful.Request, resp *restful.Response) {
+				resp.WriteHeader(se.Code)
+				run.write(resp, c.ErrChunks)
+			})
+		}
 		if c.PanicAfter >= 0 {
 			ct.DoNotRecover(false)
 			if !c.DefaultRec {
@@ -415,6 +421,10 @@ func checkC07(c C07Case) (vs []*Violation) {
 	if c.DefaultRec && c.PanicAfter >= 0 {
 		// the default recover handler writes a stack trace; its bytes are not known in advance
 		want = nil
+	}
+	if c.DefaultErr && c.Target == "noroute" {
+		want = nil // the library's own error text
+		labels = append(labels, "default_error_writer")
 	}
 	if !applied {
 		labels = append(labels, "not_encoded")
